@@ -218,6 +218,48 @@ func runDecode(data []byte, cmp bool, flavour int, fault bool, r *rand.Rand) dec
 	return o
 }
 
+// a decoder that has reported an error does not come back to life: pulling it again yields no token
+func decodeStaysFailed(rep *Report, data []byte, cmp bool, desc string) {
+	var s sb.Stream
+	if cmp {
+		s = sb.DecodeForCompare(bytes.NewReader(data))
+	} else {
+		s = sb.Decode(bytes.NewReader(data))
+	}
+	var firstErr error
+	n, after := 0, 0
+	_ = guard(func() error {
+		for i := 0; i < 100000; i++ {
+			var t sb.Token
+			err := s.Next(&t)
+			if err != nil && firstErr == nil {
+				firstErr = err
+				continue
+			}
+			if firstErr != nil {
+				if t.Valid() {
+					after++
+				}
+				if i > n+4 {
+					return nil
+				}
+				continue
+			}
+			if t.Invalid() {
+				return nil
+			}
+			n++
+		}
+		return nil
+	})
+	rep.Evaluations++
+	if firstErr != nil && after > 0 {
+		what := fmt.Sprintf("after the decode error %v (following %d tokens) further pulls of the same stream delivered %d more tokens", firstErr, n, after)
+		rep.violate("C04", "decode-continues-after-error", what, desc)
+		rep.violate("C15", "decode-continues-after-error", what, desc)
+	}
+}
+
 func tokenExactEq(a, b sb.Token) bool {
 	if a.Kind != b.Kind {
 		return false
@@ -365,6 +407,7 @@ func famCodec(dir string, seed int64, tier string) {
 		valids = append(valids, validEnc{ts, o0.bytes})
 		// the encoder writes as it goes, and a decoder may be set up on a buffer that is still being written
 		apiIncrementalEncode(repEnc, ts, o0.bytes, desc)
+		apiHandDrivenSinks(repEnc, ts, o0.bytes, desc)
 		if len(o0.bytes) < 200000 {
 			apiInterleavedCodec(repDec, ts, desc)
 		}
@@ -771,6 +814,8 @@ func refEncodeLen(n int) int {
 
 func hostileCase(rep *Report, w *CaseWriter, in []byte, limit uint64, r *rand.Rand) {
 	sb.MaxDecodeStringLength = limit
+	decodeStaysFailed(rep, in, false, fmt.Sprintf("limit=%d bytes=%x", limit, in))
+	decodeStaysFailed(rep, in, true, fmt.Sprintf("limit=%d bytes=%x (compare decoder)", limit, in))
 	desc := fmt.Sprintf("limit=%d bytes=%x", limit, in)
 	op := decodeAllFlavours(rep, in, false, false, r, desc)
 	oc := decodeAllFlavours(rep, in, true, false, r, desc)
